@@ -297,4 +297,39 @@ theorem expectedWhy_model_perm (o : EpochOpts K) (p q p1 : Pop K) (ex : ExecStat
 
 end KindB
 
+/-! ### non-vacuity and sharpness: concrete populations over ℚ -/
+section NonVacuity
+
+/-- `qPop` with the two members of species 1 listed in the other order -/
+def qPopSwap (f0 f1 f2 : ℚ) : Pop ℚ :=
+  { qPop f0 f1 f2 with
+    species := [{ id := 1, age := 3, maxFitnessEver := 0, expectedOffspring := 0, isNovel := false, orgs := [qOrg 2 f2, qOrg 0 f0],
+                  ageOfLastImprovement := 0 },
+                { id := 4, age := 1, maxFitnessEver := 0, expectedOffspring := 0, isNovel := true, orgs := [qOrg 1 f1],
+                  ageOfLastImprovement := 0 }] }
+
+theorem qPop_speciesPerm (f0 f1 f2 : ℚ) : C02.SpeciesPerm (qPop f0 f1 f2) (qPopSwap f0 f1 f2) :=
+  ⟨rfl, .cons ⟨rfl, List.Perm.swap _ _ _⟩ (.cons ⟨rfl, List.Perm.refl _⟩ .nil)⟩
+
+/-- the hypotheses of `quotaOk_exact_perm` hold for `qPop 1 3 5` (raw fitness 1, 5 | 3; three organisms) -/
+theorem qPop_quotaHyp : QuotaHyp qOpts (qPop 1 3 5) := by rw [ratScalar_eq]; decide +kernel
+
+/-- … so the theorem applies to the re-ordered population; evaluated independently: both orders adjust without error
+    and give raw total 3 = PopSize -/
+example : QuotaOk qOpts (qPopSwap 1 3 5) := quotaOk_exact_perm qOpts _ _ qPop_quotaHyp (qPop_speciesPerm 1 3 5)
+
+example :
+    ((adjustAll qOpts (qPop 1 3 5).species).toOption.map
+      (fun sp => (rawAssign ({ qPop 1 3 5 with species := sp } : Pop ℚ)).2)) = some 3 ∧
+    ((adjustAll qOpts (qPopSwap 1 3 5).species).toOption.map
+      (fun sp => (rawAssign ({ qPopSwap 1 3 5 with species := sp } : Pop ℚ)).2)) = some 3 := by
+  rw [ratScalar_eq]; decide +kernel
+
+/-- **the positivity hypothesis cannot be dropped**: with all fitness values zero the mean is zero, the code's guard
+    leaves the stale expected offspring (7 each) in place and the raw quotas total 21 > 3 - `QuotaOk` is false -/
+theorem quotaOk_needs_positive : ¬ QuotaOk qOpts (qPop 0 0 0) ∧ ¬ SomePositive qOpts (qPop 0 0 0) := by
+  rw [ratScalar_eq]; decide +kernel
+
+end NonVacuity
+
 end GoNeat.C09
